@@ -269,12 +269,30 @@ def oracle_case(arg):
                     fail("tell_routing", f"a result told for child {i} changed the data of child {j}")
             if pkey(kind, p) not in {key_of(k) for k in kids[i].data}:
                 fail("tell_routing", f"a result told for child {i} did not reach it")
+        elif r < 0.68 and len(outstanding) >= 2:
+            # several results at once through tell_many, the children interleaved in the order the points were handed out
+            k = rng.randrange(2, min(6, len(outstanding)) + 1)
+            batch = [outstanding.pop(rng.randrange(len(outstanding))) for _ in range(k)]
+            vals = [value_for(kind, i, p if not isinstance(p, tuple) else p[0], rng) for i, p in batch]
+            lazy = rng.random() < 0.3
+            b.tell_many(iter(batch) if lazy else list(batch), iter(vals) if lazy else list(vals))
+            hist.append(("tell_many", [(i, key_of(p)) for i, p in batch]))
+            for i, p in batch:
+                if pkey(kind, p) not in {key_of(q) for q in kids[i].data}:
+                    fail("tell_routing", f"a result told for child {i} through tell_many did not reach it (batch labels {[a for a, _ in batch]})")
+                    break
         elif r < 0.72:
             i = rng.randrange(nk)
             offer = kids[i].ask(1, tell_pending=False)[0]
             if not offer:
                 continue
             p = offer[0]
+            if kind == "l1d" and rng.random() < 0.5:
+                # a point the child did NOT propose (an external scheduler): cached suggestions of that child are stale now
+                lo_, hi_ = kids[i].bounds
+                q = lo_ + (hi_ - lo_) * rng.randrange(1, 64) / 64.0
+                if q not in kids[i].data and q not in kids[i].pending_points:
+                    p = q
             b.tell_pending((i, p))
             hist.append(("tell_pending", i, key_of(p)))
             outstanding.append((i, p))
